@@ -124,6 +124,32 @@ func checkManifestAt(d mgen.Doc, viaLink bool) error {
 			}
 		}
 	}
+	// addresses derived by the library itself from a package of the bundle and a relative path that climbs
+	for _, pa := range b.RemotePackages() {
+		for _, base := range []string{"", "a"} {
+			for _, rel := range []string{"../x", "../../x", "../../../etc/passwd", "./a/../../../y", "../"} {
+				relSrc, perr := sourceaddrs.ParseLocalSource(rel)
+				if perr != nil {
+					continue
+				}
+				derived, rerr := sourceaddrs.ResolveRelativeSource(pa.SourceAddr(base), relSrc)
+				if rerr != nil {
+					continue
+				}
+				rsrc, isRemote := derived.(sourceaddrs.RemoteSource)
+				if !isRemote {
+					continue
+				}
+				p, lerr := b.LocalPathForRemoteSource(rsrc)
+				if lerr != nil {
+					continue
+				}
+				if e := inside(fmt.Sprintf("LocalPathForSource(ResolveRelativeSource(%s, %q) = %s)", pa.SourceAddr(base), rel, derived), p); e != nil {
+					return e
+				}
+			}
+		}
+	}
 	for _, rp := range b.RegistryPackages() {
 		for _, v := range b.RegistryPackageVersions(rp) {
 			for _, sub := range subs {
